@@ -35,6 +35,10 @@ THEOREMS = [
     "IrVerif.Path.C10_load_base_nonempty",
     "IrVerif.Path.C10_load_base_is_model_dir",
     "IrVerif.Path.C10_load_read_safe",
+    "IrVerif.Path.C10_call_events",
+    "IrVerif.Path.C10_call_open_safe",
+    "IrVerif.Path.C10_call_result",
+    "IrVerif.Path.C10_session_safe",
 ]
 ASSUMPTIONS = [
     "POSIX only: os.path.normcase is the identity; Windows/ntpath behaviour is not modelled",
@@ -46,7 +50,9 @@ ASSUMPTIONS = [
     "os.lstat/os.stat/os.path.realpath on fixed and random trees",
     "os.getcwd() names a chain of real directories (true on POSIX); theorems about reads assume the Python recursion "
     "bound is at least the kernel's symlink bound",
-    "mmaps that were loaded before base_dir was re-assigned, and a second read of an already loaded tensor, are not covered",
+    "a tensor that is already mapped is served from its mapping (no new open, no new check): it keeps returning the bytes of "
+    "the inode it mapped through a checked open even if the path or base_dir changes afterwards (modelled and proved as such; "
+    "by design of the mmap cache)",
     "file permissions, mount points, special files and st_nlink of directories beyond what the tree reports are not modelled",
 ]
 
@@ -110,8 +116,9 @@ def build_tree() -> dict:
     return {"top": top, "R": R, "scratch": scratch, "canaries": sorted(v.decode() for k, v in files.items() if v.startswith(b"CANARY"))}
 
 
-def describe_tree(R: str) -> dict:
-    """Walk R without following links -> entries for the model + ground truth for the oracle."""
+def describe_tree(R: str, idmap: dict | None = None) -> dict:
+    """Walk R without following links -> entries for the model + ground truth for the oracle.
+    `idmap` ((dev, ino) -> id) keeps inode ids stable across descriptions of a changing tree."""
     entries = []  # [path, kind, arg]  kind in d/f/l
     inodes: dict = {}  # (dev, ino) -> {"id", "nlink", "data", "locs"}
     anc = R
@@ -139,7 +146,11 @@ def describe_tree(R: str) -> dict:
             if key not in inodes:
                 with open(p, "rb") as f:
                     data = f.read()
-                inodes[key] = {"id": len(inodes) + 1, "nlink": st.st_nlink, "data": data.decode("latin1"), "locs": []}
+                if idmap is None:
+                    iid = len(inodes) + 1
+                else:
+                    iid = idmap.setdefault(key, len(idmap) + 1)
+                inodes[key] = {"id": iid, "nlink": st.st_nlink, "data": data.decode("latin1"), "locs": []}
             inodes[key]["locs"].append(p)
             entries.append([p, "f", inodes[key]["id"]])
     return {"entries": entries, "inodes": inodes}
@@ -271,7 +282,7 @@ def read_via(t, ep: str, scratch: str) -> bytes:
     raise AssertionError(ep)
 
 
-def real_read(t, ep: str, scratch: str, R: str) -> dict:
+def real_read(t, ep: str, scratch: str, R: str, release: bool = True) -> dict:
     """Run one read under the audit hook; canonical observation."""
     _ensure_hook()
     _AUDIT["events"] = []
@@ -284,10 +295,11 @@ def real_read(t, ep: str, scratch: str, R: str) -> dict:
             obs = {"r": "raised", "layer": _classify(e), "exc": type(e).__name__}
     finally:
         _AUDIT["on"] = False
-        try:
-            t.release()
-        except Exception:
-            pass
+        if release:
+            try:
+                t.release()
+            except Exception:
+                pass
     cwd = os.getcwd()
     opened = []
     for p in _AUDIT["events"]:
@@ -744,6 +756,7 @@ def _run(ctx: Ctx) -> None:
             ctx.merge(p)
         load_cases(ctx, tree, desc)
         odd_cases(ctx, tree, desc)
+        stateful_sequences(ctx)
         random_trees(ctx)
     finally:
         os.chdir(old)
@@ -809,6 +822,245 @@ def odd_cases(ctx: Ctx, tree: dict, desc: dict) -> None:
         os.chdir(old)
 
 
+# --------------------------------------------------------------------------- stateful sequences
+
+MAPPING_EPS = ("numpy", "tobytes", "array", "serialize_raw")
+
+
+def build_state_tree() -> dict:
+    top = os.path.realpath(tempfile.mkdtemp(prefix="irverif-c10-"))
+    R = os.path.join(top, "r")
+    os.mkdir(R)
+    for d in ("base", "base/s", "base/d", "outside", "outside/s", "other"):
+        os.mkdir(os.path.join(R, d))
+    files = {
+        "base/w": b"INSIDE_W", "base/f": b"INSIDE_F", "base/s/w": b"INSIDESW", "base/d/w": b"INSIDEDW",
+        "outside/canary": b"CANARY_C", "outside/hc": b"CANARY_H", "outside/s/w": b"CANARYSW",
+    }
+    for rel, c in files.items():
+        _w(os.path.join(R, rel), c)
+    os.symlink("../outside/canary", os.path.join(R, "other/w"))
+    scratch = os.path.join(top, "scratch")
+    os.mkdir(scratch)
+    return {"top": top, "R": R, "scratch": scratch, "canaries": sorted(v.decode() for v in files.values() if v.startswith(b"CANARY"))}
+
+
+def _mut_none(R, t, loc):
+    return None
+
+
+def _mut_symlink_out(R, t, loc):
+    p = os.path.join(R, "base", loc)
+    os.remove(p)
+    os.symlink(os.path.join(R, "outside/canary"), p)
+
+
+def _mut_hardlink_out(R, t, loc):
+    p = os.path.join(R, "base", loc)
+    os.remove(p)
+    os.link(os.path.join(R, "outside/hc"), p)
+
+
+def _mut_symlink_in(R, t, loc):
+    p = os.path.join(R, "base", loc)
+    os.remove(p)
+    os.symlink(os.path.join(R, "base/f"), p)
+
+
+def _mut_replace_in(R, t, loc):
+    p = os.path.join(R, "base", loc)
+    os.remove(p)
+    _w(p, b"INSIDE_N")
+
+
+def _mut_rewrite_in_place(R, t, loc):
+    with open(os.path.join(R, "base", loc), "r+b") as f:
+        f.write(b"INSIDE_M")
+
+
+def _mut_add_hardlink(R, t, loc):
+    os.link(os.path.join(R, "base", loc), os.path.join(R, "outside/extra"))
+
+
+def _mut_delete(R, t, loc):
+    os.remove(os.path.join(R, "base", loc))
+
+
+def _mut_dir_swap(R, t, loc):
+    shutil.rmtree(os.path.join(R, "base/s"))
+    os.symlink("../outside/s", os.path.join(R, "base/s"))
+
+
+def _mut_base_other(R, t, loc):
+    t.base_dir = R + "/other"
+    return (R + "/other", R + "/other")
+
+
+def _mut_base_sub(R, t, loc):
+    t.base_dir = R + "/base/d"
+    return (R + "/base/d", R + "/base/d")
+
+
+def _mut_base_rel(R, t, loc):
+    t.base_dir = "base"
+    return ("base", R + "/base")
+
+
+def _mut_base_outside(R, t, loc):
+    t.base_dir = R + "/outside"
+    return (R + "/outside", R + "/outside")
+
+
+def _mut_release(R, t, loc):
+    t.release()
+    return "release"
+
+
+MUTATIONS = {
+    "none": _mut_none, "symlink_out": _mut_symlink_out, "hardlink_out": _mut_hardlink_out, "symlink_in": _mut_symlink_in,
+    "replace_in": _mut_replace_in, "rewrite_in_place": _mut_rewrite_in_place, "add_hardlink": _mut_add_hardlink,
+    "delete": _mut_delete, "dir_swap": _mut_dir_swap, "base_other": _mut_base_other, "base_sub": _mut_base_sub,
+    "base_rel": _mut_base_rel, "base_outside": _mut_base_outside, "release": _mut_release,
+}
+
+
+def run_scenario(part, loc: str, steps: list, label: str) -> None:
+    """steps: list of ("call", ep) | ("mut", name).  One tensor, one fresh tree; oracle after every
+    call; the whole sequence is then given to the model (path.session) and compared call by call."""
+    tree = build_state_tree()
+    R = tree["R"]
+    old = os.getcwd()
+    try:
+        os.chdir(R)
+        idmap: dict = {}
+        known: dict = {}  # id -> latest content (also of inodes that were unlinked meanwhile)
+
+        def snapshot():
+            d = describe_tree(R, idmap)
+            for info in d["inodes"].values():
+                known[info["id"]] = info["data"]
+            ghosts = [[i, 0, c] for i, c in known.items() if i not in {x["id"] for x in d["inodes"].values()}]
+            return d, {"entries": d["entries"], "inodes": [[x["id"], x["nlink"], x["data"]] for x in d["inodes"].values()] + ghosts}
+
+        base, true_base = R + "/base", R + "/base"
+        t = make_tensor(base, loc)
+        desc, fsj = snapshot()
+        msteps = [{"op": "fs", "fs": fsj}, {"op": "base", "base": base}]
+        observed = []
+        mapped_id = None  # inode the tensor legitimately mapped earlier (oracle's own bookkeeping)
+        for kind, arg in steps:
+            if kind == "mut":
+                r = MUTATIONS[arg](R, t, loc)
+                if r == "release":
+                    msteps.append({"op": "release"})
+                    mapped_id = None
+                elif isinstance(r, tuple):
+                    base, true_base = r
+                    msteps.append({"op": "base", "base": base})
+                else:
+                    desc, fsj = snapshot()
+                    msteps.append({"op": "fs", "fs": fsj})
+                continue
+            ep = arg
+            case = {"cwd": R, "base": base, "loc": loc, "ep": ep, "offset": 0, "length": NBYTES, "via": "stateful", "sequence": label, "steps": steps}
+            obs = real_read(t, ep, tree["scratch"], R, release=False)
+            # ---- oracle (independent of the model)
+            inos = desc["inodes"]
+            tb = true_base.rstrip("/") + "/"
+
+            def inside(key):
+                info = inos.get(key)
+                return info is not None and info["nlink"] == 1 and all((l + "/").startswith(tb) for l in info["locs"])
+
+            opened_keys = []
+            for p in obs["opened"]:
+                key = true_location(p, R)
+                if key is not None and key in inos:
+                    opened_keys.append(key)
+                    if not inside(key):
+                        part.fail(f"stateful-outside-open:{ep}", "a call opened a file outside the base directory / with several links "
+                                  "(the containment check must be made on every call that opens the path)", {**case, "obs": obs})
+            if obs["r"] == "ok":
+                if opened_keys:
+                    good = any(inside(k) and inos[k]["data"][:NBYTES] == obs["bytes"] for k in opened_keys)
+                else:
+                    good = mapped_id is not None and known.get(mapped_id, "")[:NBYTES] == obs["bytes"]
+                if not good:
+                    kind_ = "canary-read" if obs["bytes"] in tree["canaries"] else "not-inside-file"
+                    part.fail(f"stateful-{kind_}:{ep}", "a call returned bytes that are not those of a singly-linked regular file inside "
+                              "the base directory (opened by this call, or mapped by an earlier checked call)", {**case, "obs": obs})
+            if ep in MAPPING_EPS and opened_keys and obs["r"] == "ok":
+                mapped_id = inos[opened_keys[-1]]["id"]
+            if ep == "serialize_raw" and obs["r"] == "ok":
+                mapped_id = None
+            msteps.append({"op": "call", "ep": ep})
+            observed.append((case, obs))
+            part.case(["stateful", label, len(observed)], nontrivial=True, sample={"sequence": label, "loc": loc}, stateful_ep=ep,
+                      stateful_outcome=(obs["r"] if obs["r"] == "ok" else "raised-" + obs.get("layer", "?")) + ("" if obs["opened"] else "-noopen"))
+        out = lean_batch([{"m": "path.session", "cwd": R, "kfuel": KFUEL, "fuel": PFUEL, "loc": loc, "offset": 0, "length": NBYTES, "steps": msteps}])[0]
+        if "r" not in out or len(out["r"]) != len(observed):
+            part.disagree("model error (session)", {"sequence": label}, out, None)
+        else:
+            for (case, obs), o in zip(observed, out["r"]):
+                compare(part, case, obs, o, {}, R)
+                if (o.get("opened") is None) != (not [p for p in obs["opened"] if true_location(p, R) in desc["inodes"] or (posixpath.normpath(p) + "/").startswith(tree["top"] + "/")]):
+                    part.disagree("open / no-open differs (session)", case, o, obs)
+        try:
+            t.release()
+        except Exception:
+            pass
+    finally:
+        os.chdir(old)
+        shutil.rmtree(tree["top"], ignore_errors=True)
+
+
+def _stateful_work(job: list) -> dict:
+    part = Part()
+    for loc, steps, label in job:
+        run_scenario(part, loc, steps, label)
+    return part
+
+
+def stateful_sequences(ctx: Ctx) -> None:
+    """(entry point, change of the tree | base_dir re-assignment | release(), entry point, tofile, release, entry point)
+    exhaustively over entry points x mutations, plus random longer sequences."""
+    scen = []
+    for ep1 in ENTRY_POINTS:
+        for mut in MUTATIONS:
+            loc = "s/w" if mut == "dir_swap" else "w"
+            for ep2 in ENTRY_POINTS:
+                steps = [("call", ep1), ("mut", mut), ("call", ep2), ("call", "tofile_bytesio"), ("mut", "release"), ("call", ep2)]
+                scen.append((loc, steps, f"{ep1}>{mut}>{ep2}"))
+    ctx.exhaustive_scopes.append(f"stateful: call ep1, mutation, call ep2, tofile, release, call ep2 for all {len(ENTRY_POINTS)}x{len(MUTATIONS)}x{len(ENTRY_POINTS)} (ep1, mutation, ep2)")
+    path_muts = {"file": ["symlink_out", "hardlink_out", "symlink_in", "replace_in", "delete", "rewrite_in_place", "add_hardlink"],
+                 "link": ["symlink_out", "hardlink_out", "symlink_in", "replace_in", "delete"],
+                 "gone": []}
+    other_muts = ["none", "base_other", "base_sub", "base_rel", "base_outside", "release"]
+    for _ in range(ctx.pick(150, 2000)):
+        steps = [("call", ctx.rng.choice(ENTRY_POINTS))]
+        kind, extra = "file", False
+        for _ in range(ctx.rng.randrange(3, 9)):
+            if ctx.rng.random() < 0.45:
+                m = ctx.rng.choice(path_muts[kind] + other_muts)
+                if m == "add_hardlink":
+                    if extra:
+                        continue
+                    extra = True
+                if m in ("symlink_out", "symlink_in"):
+                    kind = "link"
+                elif m in ("hardlink_out", "replace_in"):
+                    kind = "file" if m == "replace_in" else "link"  # after hardlink_out never write through it
+                elif m == "delete":
+                    kind = "gone"
+                steps.append(("mut", m))
+            else:
+                steps.append(("call", ctx.rng.choice(ENTRY_POINTS)))
+        scen.append(("w", steps, "random:" + ">".join(a for _, a in steps)))
+    k = max(1, (len(scen) + 31) // 32)
+    for p in pmap(_stateful_work, [scen[i:i + k] for i in range(0, len(scen), k)]):
+        ctx.merge(p)
+
+
 def random_trees(ctx: Ctx) -> None:
     """Random small trees: reads with a random real directory as base, and realpath/lstat/stat."""
     trees = []
@@ -847,6 +1099,11 @@ def random_trees(ctx: Ctx) -> None:
 def replay(ctx: Ctx, obj: dict) -> None:
     """Re-run one recorded case (failing input or disagreement) on a fresh tree."""
     case = obj.get("case", obj)
+    if case.get("via") == "stateful" and "steps" in case:
+        part = Part()
+        run_scenario(part, case["loc"], [tuple(x) for x in case["steps"]], case.get("sequence", "replay"))
+        ctx.merge(part)
+        return
     tree = build_tree()
     old = os.getcwd()
     try:
